@@ -99,6 +99,10 @@ func hasErrorResult(fn *ssa.Function) bool {
 
 // valueKind reports the dependency kind a value carries ("" if none).
 func (d *depInfo) valueKind(v ssa.Value) string {
+	return d.valueKindSeen(v, map[*ssa.Phi]bool{})
+}
+
+func (d *depInfo) valueKindSeen(v ssa.Value, seenPhi map[*ssa.Phi]bool) string {
 	for depth := 0; v != nil && depth < 8; depth++ {
 		if k := dependencyKind(v.Type()); k != "" {
 			return k
@@ -139,8 +143,12 @@ func (d *depInfo) valueKind(v ssa.Value) string {
 			}
 			return ""
 		case *ssa.Phi:
+			if seenPhi[x] {
+				return ""
+			}
+			seenPhi[x] = true
 			for _, e := range x.Edges {
-				if k := d.valueKind(e); k != "" {
+				if k := d.valueKindSeen(e, seenPhi); k != "" {
 					return k
 				}
 			}
@@ -593,6 +601,80 @@ func (c *Ctx) judgeFailureRegion(fn *ssa.Function, call *ssa.Call, e ssa.Value, 
 		}
 	}
 	c.R.Check(okAll, "C2.surface", name(fn), construct, pos, what, detail)
+	// C2.bypass: the test of the error is not skipped on the way to a successful
+	// return. A read whose count came back short is the case that matters: the
+	// error is what tells a failure from the end of the input, and a return taken
+	// on "short count" before the error is looked at reports a failed read as a
+	// clean end. (A full count makes the error irrelevant: io.ReaderAt, io.ReadFull.)
+	if tested && hasErr && okAll {
+		cut := map[ir.Edge]bool{}
+		for _, ce := range ir.CondEdges(fn) {
+			if ce.If == nil {
+				continue
+			}
+			uses := false
+			if v, _ := errIsNil(ce.RawCond, ce.RawTruth); v != nil && sameErrValue(v, e) {
+				uses = true
+			}
+			if ev, ok := isEOFTest(ce.RawCond); ok && (ev == e || sameErrValue(ev, e)) {
+				uses = true
+			}
+			if uses {
+				cut[ce.Edge] = true
+			}
+			// the count equals the length of the buffer handed in: nothing is missing
+			if cmp, ok := ce.Cond.(*ssa.BinOp); ok && fullCountEdge(call, cmp, ce.Truth) {
+				cut[ce.Edge] = true
+			}
+		}
+		seen, _ := ir.ReachF(fn, call.Block(), cut)
+		for r, cl := range retClassesFrom(fn, call.Block(), -1) {
+			if cl != "success" || !seen[r.Block().Index] || r.Block() == call.Block() {
+				continue
+			}
+			// reachable without passing any test of the error?
+			if bypass, _ := ir.Reach(fn, call.Block(), cut); bypass[r.Block().Index] {
+				c.R.Violf("C2.bypass", name(fn), construct, pos, "the error of the call is looked at on every path to a successful return",
+					"the successful return at "+c.IPos(r)+" is reachable from the call without any test of its error (a short count is taken for the end of the input before the error is examined): a failing "+kind+" is reported as a clean end")
+				return
+			}
+		}
+		c.R.Okf("C2.bypass", name(fn), construct, pos, "every path from the call to a successful return tests its error (or has a full count)")
+	}
+}
+
+// fullCountEdge: on this edge the count returned by the read call equals the
+// length of the buffer it was given.
+func fullCountEdge(call *ssa.Call, cmp *ssa.BinOp, truth bool) bool {
+	args := ir.CallArgs(call)
+	isCount := func(v ssa.Value) bool {
+		ex, ok := ir.StripConv(v).(*ssa.Extract)
+		return ok && ex.Tuple == ssa.Value(call) && ex.Index == 0
+	}
+	isBufLen := func(v ssa.Value) bool {
+		lc, ok := ir.StripConv(v).(*ssa.Call)
+		if !ok || ir.CallID(lc) != "builtin.len" {
+			return false
+		}
+		for _, a := range args {
+			if a == lc.Call.Args[0] || ir.AccessPath(a) != "" && ir.AccessPath(a) == ir.AccessPath(lc.Call.Args[0]) {
+				return true
+			}
+		}
+		return false
+	}
+	op := cmp.Op
+	if !truth {
+		op = negate(op)
+	}
+	x, y := cmp.X, cmp.Y
+	if isBufLen(x) && isCount(y) {
+		x, y, op = y, x, flip(op)
+	}
+	if !isCount(x) || !isBufLen(y) {
+		return false
+	}
+	return op == token.EQL || op == token.GEQ
 }
 
 func returnsAfter(call *ssa.Call, r *ssa.Return) bool {
